@@ -680,6 +680,14 @@ func (x *Exec) checkInvariants(st *State, fr *Frame, li *loopInfo, phase string)
 			}
 			continue
 		}
+		if c.Bound != "" {
+			// a quantified invariant: proved for its own arbitrary constant, which is among the values the
+			// invariant was instantiated at when it was assumed at the loop head
+			env.vars[c.Bound] = intVal(x.skolemFor(c))
+			x.oblige(st, "inv"+fmt.Sprint(li.ordinal)+"."+phase, fmt.Sprint(k), env.evalBool(c.Expr), x.propsFor(c), c.Text, token.NoPos)
+			delete(env.vars, c.Bound)
+			continue
+		}
 		parts := x.splitConj(c.Expr, 0)
 		for j, pe := range parts {
 			d := fmt.Sprint(k)
@@ -914,6 +922,14 @@ func (x *Exec) havocLoop(st *State, fr *Frame, li *loopInfo) {
 			if g, ok := x.tryEvalBool(env, c); ok {
 				st.assume(g)
 			}
+			continue
+		}
+		if c.Bound != "" {
+			for _, sk := range x.skolemTerms() {
+				env.vars[c.Bound] = intVal(sk)
+				st.assume(env.evalBool(c.Expr))
+			}
+			delete(env.vars, c.Bound)
 			continue
 		}
 		st.assume(env.evalBool(c.Expr))
@@ -2015,21 +2031,41 @@ func (x *Exec) reveals(name string) bool {
 func (x *Exec) skolemFor(c *Clause) Term {
 	if x.skolems == nil {
 		x.skolems = map[*Clause]Term{}
-		for _, e := range x.spec.Ens {
-			if e.Bound != "" {
-				x.skolems[e] = Term(x.d.FreshConst("sk_"+e.Bound, "Int"))
-			}
+		for _, e := range x.boundClauses() {
+			x.skolems[e] = Term(x.d.FreshConst("sk_"+e.Bound, "Int"))
 		}
 	}
 	return x.skolems[c]
 }
 
-func (x *Exec) skolemTerms() []Term {
-	var out []Term
+// boundClauses: the quantified clauses of the function under verification (postconditions and loop
+// invariants), in a fixed order.
+func (x *Exec) boundClauses() []*Clause {
+	var out []*Clause
 	for _, e := range x.spec.Ens {
 		if e.Bound != "" {
-			out = append(out, x.skolemFor(e))
+			out = append(out, e)
 		}
+	}
+	var ords []int
+	for o := range x.spec.Loops {
+		ords = append(ords, o)
+	}
+	sort.Ints(ords)
+	for _, o := range ords {
+		for _, c := range x.spec.Loops[o].Invs {
+			if c.Bound != "" {
+				out = append(out, c)
+			}
+		}
+	}
+	return out
+}
+
+func (x *Exec) skolemTerms() []Term {
+	var out []Term
+	for _, e := range x.boundClauses() {
+		out = append(out, x.skolemFor(e))
 	}
 	return out
 }
